@@ -644,6 +644,21 @@ int rawSend(int fd, const void* data, size_t n)
 	}
 	return (int)done;
 }
+int rawShutdownWrite(int fd)
+{
+	sp();
+	RtScope r;
+	Ep* e = E(fd);
+	if (!e || e->st != Ep::CONN)
+		return -1;
+	Ep* p = peerOf(e);
+	if (p)
+		p->in.writerClosed = true; // FIN after everything sent so far; this side can still receive
+	e->peerGone = true;            // further sends from this side fail
+	event("net shutdown(WR) c%d s%d", e->conn, e->side);
+	changed();
+	return 0;
+}
 int rawSendSegment(int fd, const void* data, size_t n)
 {
 	sp();
